@@ -104,15 +104,23 @@ class BasePort:
         is garbage collected.
         """
         with self._lock:
-            if not self.closed:
-                if hasattr(self, 'autoreset') and self.autoreset:
-                    try:
-                        self.reset()
-                    except OSError:
-                        pass
+            if not self.closed and not getattr(self, '_closing', False):
+                # close() can be re-entered from a device hook while the
+                # reset messages are being sent (a socket port closes
+                # itself on a broken pipe): the inner call must not start
+                # the reset all over again.
+                self._closing = True
+                try:
+                    if hasattr(self, 'autoreset') and self.autoreset:
+                        try:
+                            self.reset()
+                        except OSError:
+                            pass
 
-                self._close()
-                self.closed = True
+                    self._close()
+                    self.closed = True
+                finally:
+                    self._closing = False
 
     def __del__(self):
         self.close()
